@@ -82,6 +82,21 @@ def run_case(rng, tier, case):
         case.inconc('not solved: ' + str(r.res)); return
     setups = flow.top_setups(r.rec)
     nt = mon_value_accounting(case, r.built.portfolio, r.res, r.out, setups, r.built.timegrid.T)
+    if rng.random() < 0.3:
+        # the same problem object optimised a SECOND time (another solver run, a check of an earlier result): what that call returns is accounted
+        # for like any other result
+        import eaopack.io as eio
+        try:
+            with env.quiet():
+                res_2 = r.op.optimize()
+                out_2 = None if isinstance(res_2, str) else eio.extract_output(r.built.portfolio, r.op, res_2, r.built.prices)
+            if out_2 is not None:
+                case.feature('second_optimize_on_same_problem' + (':split' if split else ''))
+                mon_value_accounting(case, r.built.portfolio, res_2, out_2, setups, r.built.timegrid.T)
+                tolv = (1e-6 if not gen.is_mip(spec) else 2e-3) * (1 + abs(float(r.res.value)))
+                case.check('value.second_optimize_same_value', abs(float(res_2.value) - float(r.res.value)) <= tolv, first=float(r.res.value), second=float(res_2.value), split=split)
+        except Exception as e:
+            case.check('value.second_optimize_works', False, split=split, error='%s: %s' % (type(e).__name__, str(e)[:160]))
     if not split and not gen.is_mip(spec) and rng.random() < 0.25:
         # "every optimised portfolio": the robust target (spelled as users spell it) on the same problem object, extracted the same way
         import eaopack.io as eio
